@@ -49,6 +49,10 @@ class CallMixin:
                 raise EngineError(f"exception attribute {name}")
             if isinstance(v.T, (ty.Map, ty.Lst)):
                 return [self.val(st, VFn("cmethod", name=name, self_=v))]
+            fw = self.forwarded(v.cls, name)
+            if fw is not None:
+                tgt, T = st.read_field(v, fw[0])
+                return [self.val(st, VFn("bound", name=fw[1], self_=tgt))]
             if self.schema.has_field(v.cls, name):
                 fv, T = st.read_field(v, name)
                 return [self.val(s, x) for s, x in self.split_value(st, fv, T)]
@@ -110,6 +114,8 @@ class CallMixin:
                     return [self.val(st, st.new_loc("dict", dict(v.extra[2])))]
             if name == "__doc__":
                 return [self.val(st, VObj(fresh_const("doc", ty.IntS)))]
+            if v.kind == "ext":
+                return [self.val(st, self.ext_symbol(f"{v.name}.{name}", st))]
             raise EngineError(f"attribute {name} of function {v!r}")
         if isinstance(v, VConst):
             return [self.val(st, VConst(f"{v.name}.{name}"))]
@@ -122,6 +128,11 @@ class CallMixin:
             if v.cls == "<exc>":
                 fld = EXC_FIELDS.get(name, name)
                 st.write_field(v, fld, val)
+                return [("next", st, None)]
+            fw = self.forwarded(v.cls, name)
+            if fw is not None:
+                # self.acquire = self._semlock.acquire: an instance attribute that must forward to the wrapped object
+                st.emit("bind_method", [v, VStr(name), val])
                 return [("next", st, None)]
             if not self.schema.has_field(v.cls, name):
                 raise EngineError(f"write to undeclared field {v.cls}.{name}")
@@ -140,6 +151,13 @@ class CallMixin:
             st.emit("setattr", [v, VStr(name), val])
             return [("next", st, None)]
         raise EngineError(f"attribute store on {v!r}")
+
+    def forwarded(self, cls, name):
+        for c_ in self.schema.mro(cls):
+            d = self.schema.classes.get(c_)
+            if d is not None and name in getattr(d, "forward", {}):
+                return d.forward[name]
+        return None
 
     def check_guarded_write(self, ref, field, st):
         pass
